@@ -60,6 +60,7 @@ structure EvalRes (P : Prog) (B : List NodeId) (bp : NodeId → Prop) (s : Stora
   stamps : (∀ d, d ∈ fr.rdeps → d.stamp = s.epoch) → ∀ d, d ∈ fr'.rdeps → d.stamp = s.epoch
   reads : ∀ rd, rd ∈ R → ReadOk s' fr' rd ∧ ∃ d, d ∈ fr'.rdeps ∧ d.node = rd.kind
   exact : ∀ d, d ∈ fr'.rdeps → (∃ d0, d0 ∈ fr.rdeps ∧ d0.node = d.node) ∨ ∃ rd, rd ∈ R ∧ rd.kind = d.node
+  order : fr'.rdeps.reverse.map (·.node) = pushAll (fr.rdeps.reverse.map (·.node)) (R.map Read.kind)
 
 theorem exists_pushDep (rdeps : List Dep) (n : DepNode) (e : Nat) (x : DepNode) :
     (∃ d, d ∈ pushDep rdeps ⟨n, e⟩ ∧ d.node = x) ↔ x = n ∨ ∃ d, d ∈ rdeps ∧ d.node = x := by
@@ -100,7 +101,7 @@ theorem evalRes_push {P : Prog} {B : List NodeId} {bp : NodeId → Prop} {s : St
     · exact hinv.stackB fr' (by rw [hs]; exact List.mem_cons_of_mem _ h)
   refine ⟨hinv.congr rfl rfl rfl rfl hstk,
     ⟨rfl, rfl, rfl, fun q r h => ⟨r, h, Or.inl rfl⟩, fun q hq hq' => by simp [hq] at hq'⟩, rfl, rfl, Nat.le_max_right _ _,
-    ?_, ?_, ?_, ?_, ?_, ?_⟩
+    ?_, ?_, ?_, ?_, ?_, ?_, ?_⟩
   · show max tu fr.maxTu ≤ max fr.maxTu s.epoch; omega
   · intro p hp; exact ((allN_pushDep p _ _ _).1 hp).2
   · intro x hx; exact (exists_pushDep _ _ _ _).2 (Or.inr hx)
@@ -113,18 +114,20 @@ theorem evalRes_push {P : Prog} {B : List NodeId} {bp : NodeId → Prop} {s : St
     rcases (exists_pushDep fr.rdeps n s.epoch d.node).1 ⟨d, hd, rfl⟩ with h | h
     · exact Or.inr ⟨rd, List.mem_singleton.2 rfl, by rw [hkind, h]⟩
     · exact Or.inl h
+  · show (pushDep fr.rdeps ⟨n, s.epoch⟩).reverse.map (·.node) = _
+    rw [pushDep_nodes]; simp [pushAll, hkind]
 
 theorem EvalRes.refl {P : Prog} {B : List NodeId} {bp : NodeId → Prop} {s : Storage} {fr : Frame} {rest : List Frame}
     (hinv : INV P s B) (hs : s.stack = fr :: rest) : EvalRes P B bp s fr rest [] s fr :=
   ⟨hinv, Evolves.refl bp s, hs, rfl, Nat.le_refl _, Nat.le_max_left _ _, fun _ h => h, fun _ h => h, fun h => h,
-   fun rd h => (by cases h), fun d hd => Or.inl ⟨d, hd, rfl⟩⟩
+   fun rd h => (by cases h), fun d hd => Or.inl ⟨d, hd, rfl⟩, by simp [pushAll]⟩
 
 theorem EvalRes.trans {P : Prog} {B : List NodeId} {bp : NodeId → Prop} {s s1 s2 : Storage} {fr fr1 fr2 : Frame} {rest : List Frame}
     {R1 R2 : List Read} (h1 : EvalRes P B bp s fr rest R1 s1 fr1) (h2 : EvalRes P B bp s1 fr1 rest R2 s2 fr2) :
     EvalRes P B bp s fr rest (R1 ++ R2) s2 fr2 := by
   have he : s1.epoch = s.epoch := h1.evolves.epoch
   refine ⟨h2.inv, h1.evolves.trans h2.evolves, h2.stack, h2.id.trans h1.id, Nat.le_trans h1.maxLo h2.maxLo, ?_,
-    fun p hp => h1.mono p (h2.mono p hp), fun n hn => h2.keep n (h1.keep n hn), ?_, ?_, ?_⟩
+    fun p hp => h1.mono p (h2.mono p hp), fun n hn => h2.keep n (h1.keep n hn), ?_, ?_, ?_, ?_⟩
   · have a := h1.maxHi; have b := h2.maxHi; rw [he] at b; omega
   · intro hst; have := h2.stamps (by rw [he]; exact h1.stamps hst); rw [he] at this; exact this
   · intro rd hrd
@@ -233,7 +236,7 @@ theorem evalE_inc {P : Prog} {rank : Nat → Nat} {f K : Nat} {B : List NodeId} 
     refine ⟨s2, { fr1 with rdeps := pushDep fr1.rdeps ⟨.derived (nodeOf P g av), s1.epoch⟩, maxTu := max tu fr1.maxTu }, ?_, ?_⟩
     · simp only [evalE, he1, callVia, hex, hl2, hval]
     · refine r1.trans ⟨hinv2, hev2.mono (fun q hq => Nat.lt_of_le_of_lt hq hgg.2.1), hst2, rfl,
-        Nat.le_max_right _ _, ?_, ?_, ?_, ?_, ?_, ?_⟩
+        Nat.le_max_right _ _, ?_, ?_, ?_, ?_, ?_, ?_, ?_⟩
       · show max tu fr1.maxTu ≤ max fr1.maxTu s1.epoch; omega
       · intro p hp; exact ((allN_pushDep p _ _ _).1 hp).2
       · intro x hx; exact (exists_pushDep _ _ _ _).2 (Or.inr hx)
@@ -247,6 +250,8 @@ theorem evalE_inc {P : Prog} {rank : Nat → Nat} {f K : Nat} {B : List NodeId} 
         rcases (exists_pushDep fr1.rdeps _ s1.epoch d.node).1 ⟨d, hd, rfl⟩ with h | h
         · exact Or.inr ⟨.node (nodeOf P g av) v, List.mem_singleton.2 rfl, by rw [h]; rfl⟩
         · exact Or.inl h
+      · show (pushDep fr1.rdeps ⟨.derived (nodeOf P g av), s1.epoch⟩).reverse.map (·.node) = _
+        rw [pushDep_nodes]; simp [pushAll, Read.kind]
   | @add x y a xv yv Rx Ry hx hy ihx ihy =>
     intro s fr rest hσ hm hg hinv hs
     obtain ⟨s1, fr1, he1, r1⟩ := ihx s fr rest hσ hm (fun g hgm => hg g (List.mem_append_left _ hgm)) hinv hs
